@@ -248,7 +248,17 @@ def run_property(prop, repo, tier, seed, configs, replay=None, quiet=False, writ
             fd, th, fresh = extract(repo, cfg)
             extracted.append({'config': cfg, 'tree': th, 'fresh_extraction': fresh})
             ctx = Ctx(prop, repo, tier, cfg, fd)
-            mod.run(ctx)
+            try:
+                mod.run(ctx)
+            except Inconclusive:
+                raise
+            except Exception as e:   # noqa: a rule met code it was not written for: fail closed, and say where
+                import traceback
+                tb = traceback.extract_tb(e.__traceback__)
+                where = ' <- '.join('%s:%d %s' % (os.path.basename(fr.filename), fr.lineno, fr.name) for fr in reversed(tb[-3:]))
+                ctx.ob('ENGINE', 'rule-error', False, None,
+                       'a rule of %s could not analyse this tree (%s: %s at %s): the code no longer has the shape the rule was written for; '
+                       'reported as a violation (fail closed) - the obligations examined before the error are kept' % (prop, type(e).__name__, str(e)[:120], where))
             # under non-primary configs only keep violations + count (same keys discharge again)
             for o in ctx.obs:
                 all_obs.append(o)
